@@ -58,6 +58,11 @@ func binopForms() []Form {
 
 func convForms() []Form {
 	return []Form{
+		// conversions on both sides of one operator (a translator that drops "matching" conversions loses the truncation)
+		f("cmp_conv_both_u32_eq", "rb = uint32(x) == uint32(x+4294967296)"), f("cmp_conv_both_u8_eq", "rb = uint8(x) == uint8(x+256)"),
+		f("cmp_conv_both_u8_lt", "rb = uint8(x+256) < uint8(y)"), f("cmp_conv_both_u32_ne", "rb = uint32(x) != uint32(y)"),
+		f("cmp_conv_both_u32_le", "rb = uint32(x) <= uint32(y)"), f("arith_conv_both_u8", "r = uint64(uint8(x) + uint8(y))"),
+		f("cmp_conv_both_byte_gt", "rb = byte(x) > byte(y)"),
 		f("conv_32_64", "r = uint64(w)"), f("conv_8_64", "r = uint64(c)"),
 		f("conv_64_32", "r32 = uint32(x)"), f("conv_8_32", "r32 = uint32(c)"),
 		f("conv_64_8", "r8 = uint8(x)"), f("conv_32_8", "r8 = uint8(w)"),
@@ -109,6 +114,14 @@ func assignForms() []Form {
 
 func dataForms() []Form {
 	return []Form{
+		// a[i:len(b)]: the upper bound names another slice (or the same one, which may be emitted as a skip)
+		f("slice_to_len_other_field", "sa := &SW{items: mkXs(5)}\nsb := &SW{items: mkXs(3)}\nys := sa.items[1:len(sb.items)]\nr = uint64(len(ys))"),
+		f("slice_to_len_other_var", "ya := mkXs(5)\nyb := mkXs(3)\nys := ya[1:len(yb)]\nr = uint64(len(ys))"),
+		f("slice_to_len_same", "ya := mkXs(5)\nys := ya[1:len(ya)]\nr = uint64(len(ys))"),
+		f("slice_to_len_same_field", "sa := &SW{items: mkXs(5)}\nys := sa.items[2:len(sa.items)]\nr = uint64(len(ys))"),
+		f("slice_to_len_minus", "ya := mkXs(5)\nys := ya[1 : len(ya)-1]\nr = uint64(len(ys))"),
+		f("slice_to_cap", "ya := make([]uint64, 2, 5)\nys := ya[1:cap(ya)]\nr = uint64(len(ys))"),
+		f("slice_to_len_other_elem", "yy := make([][]uint64, 2)\nyy[0] = mkXs(5)\nyy[1] = mkXs(3)\nys := yy[0][1:len(yy[1])]\nr = uint64(len(ys))"),
 		f("elided_ptr_literal", "ps := []*S2{{a: 4}}\npq := ps[0]\npq.a = pq.a + x\nr = ps[0].a"),
 		f("append_one", "xs = append(xs, x)"), f("append_two", "xs = append(xs, x)\nxs = append(xs, y)"),
 		f("append_spread", "ys := make([]uint64, 2)\nys[0] = 7\nxs = append(xs, ys...)"),
